@@ -22,6 +22,8 @@ canonicalised arguments; the physical constants R, F (kJ/V/eq and C/mol), eps0, 
                through setup_surface on a full build and through the master loop of quick_setup when the model is reused; the
                class test with which that loop skips masters, evaluated over the finite domain of species classes (codes
                recovered from the readers), may skip the potential masters but not surface-site, exchange or aqueous masters
+  C20.zerosites  the same loop, evaluated over {exchange, surface-site} x {total > 0, total == 0} with the unknown present (setup_* creates the
+               unknown of a site-less exchanger / surface): unknown->moles is assigned in every case (shared with C03 as C03.zerosites)
   C20.compunk  CD-MUSIC plane-0 charge = sum over the site types of a charge structure of moles * z(master species): the list the
                residual and the print-out sum over (unknown::comp_unknowns) has one writer, the CD_MUSIC branch of setup_surface; the
                registration lies on every path through that branch (also for a site type that finds the charge unknowns created)
@@ -163,6 +165,7 @@ def run(P, R, tier):
                     "diffuse-layer integration (calc_all_g, Donnan), ion excess = surface charge (numerical)"]
     deltaz_rule(P, R)
     sites_rule(P, R)
+    zerosites_rule(P, R)
     compunk_rule(P, R)
     R.rule("C20.psi", "every potential conversion is psi = 2 la ln10 R T/F (DDL, CCM) or psi = -la ln10 R T/F (CD-MUSIC planes), matching the selected model", minimum=12)
     R.rule("C20.sigma", "every charge-density conversion is sigma = q F/(A g) or q = sigma A g/F", minimum=15)
@@ -437,6 +440,106 @@ def compunk_rule(P, R):
                     R.ok(RULE, "%s@%d" % (g["q"].split("::")[-1], x[1]), "loop over comp_unknowns")
     if n < 1:
         R.anchor_missing(RULE, "no reader loop over unknown::comp_unknowns found (residuals, print)")
+
+
+def zerosites_rule(P, R, RULE="C20.zerosites"):
+    """quick_setup reuses the unknowns of the previous model.  setup_exchange / setup_surface create the site unknown of an exchanger or
+    surface even when it has no sites (related to an absent phase), so such a master is in the model with total == 0.  The master loop of
+    quick_setup, evaluated over the finite domain {exchange, surface-site, aqueous} x {total > 0, total == 0} x {unknown present}, must
+    assign unknown->moles for a site master in BOTH total cases - otherwise the unknown keeps the sites of the previous calculation."""
+    R.rule(RULE, "quick_setup assigns unknown->moles of an exchange / surface-site master that is in the model also when its total is zero", minimum=4)
+    codes = {}
+    for q, nm in (("Phreeqc::read_surface_species", "surface site"), ("Phreeqc::read_exchange_species", "exchange")):
+        for f in P.fns_named(q):
+            for x in T.walk(f["body"]):
+                if x[0] == "Bin" and x[2] == "=":
+                    t = T.strip_casts(x[3])
+                    if t[0] == "Member" and t[2] == "species::type" and T.lit_value(x[4]) is not None:
+                        codes.setdefault(nm, T.lit_value(x[4]))
+    if len(codes) != 2:
+        R.anchor_missing(RULE, "class codes of surface-site / exchange species not recovered from the readers (%s)" % codes)
+        return
+    f = P.one("Phreeqc::quick_setup")
+    where = dict(file=f["file"], function=f["q"])
+    loop = None
+    for x in T.walk(f["body"]):
+        if x[0] == "For" and "master" in T.text(x[3]) and any(w[0] == "Bin" and w[2] == "=" and T.text(w[3]).endswith("unknown.moles") for w in T.walk(x[5])):
+            loop = x
+            break
+    if loop is None:
+        R.anchor_missing(RULE, "quick_setup: the master loop that refreshes unknown.moles was not found")
+        return
+
+    class Unknown(Exception):
+        pass
+
+    def ev(n, env):
+        n = T.strip_casts(n)
+        if n[0] == "Paren":
+            return ev(n[2], env)
+        if n[0] == "Bin" and n[2] in ("||", "&&"):
+            a = ev(n[3], env)
+            if n[2] == "||":
+                return a or ev(n[4], env)
+            return a and ev(n[4], env)
+        if n[0] == "Un" and n[2] == "!":
+            return not ev(n[3], env)
+        if n[0] == "Bin" and n[2] in ("==", "!=", "<", "<=", ">", ">="):
+            l, r = T.strip_casts(n[3]), T.strip_casts(n[4])
+            lt, rt = T.text(l).replace(" ", ""), T.text(r).replace(" ", "")
+            op = n[2]
+            if l[0] == "Member" and l[2] == "species::type" and T.lit_value(r) is not None:
+                a, b = env["type"], T.lit_value(r)
+            elif l[0] == "Member" and l[2] == "master::total" and (T.lit_value(r) is not None or str(r[3] if r[0] == "Lit" else "") in ("0", "0.0")):
+                a, b = env["total"], 0
+            elif l[0] == "Member" and l[2] == "master::total" and r[0] == "Member" and r[2].endswith("MIN_TOTAL"):
+                a, b = env["total"], 0.5          # MIN_TOTAL: a tiny positive number
+            elif l[0] == "Member" and l[2] in ("master::unknown", "species::secondary") and r[0] == "Lit":
+                a, b = (1 if env["unknown" if l[2] == "master::unknown" else "secondary"] else 0), 0
+            elif l[0] == "Member" and l[2] == "master::s" and r[0] == "Member" and r[2].startswith("Phreeqc::s_"):
+                a, b = 0, 1                         # a site master is none of the special species
+            else:
+                raise Unknown(T.text(n)[:60])
+            return {"==": a == b, "!=": a != b, "<": a < b, "<=": a <= b, ">": a > b, ">=": a >= b}[op]
+        if n[0] == "Member" and n[2] == "master::unknown":
+            return env["unknown"]
+        raise Unknown(T.text(n)[:60])
+
+    def run(stmt, env):
+        """returns (assigned?, flow) with flow in {"next", "continue"}"""
+        if not T.is_node(stmt):
+            return False, "next"
+        if stmt[0] == "Compound":
+            got = False
+            for s_ in stmt[2]:
+                a, fl = run(s_, env)
+                got = got or a
+                if fl != "next":
+                    return got, fl
+            return got, "next"
+        if stmt[0] == "If":
+            c = ev(stmt[2], env)
+            return run(stmt[3], env) if c else (run(stmt[4], env) if T.is_node(stmt[4]) else (False, "next"))
+        if stmt[0] == "Continue":
+            return False, "continue"
+        if stmt[0] == "Bin" and stmt[2] == "=" and T.text(stmt[3]).replace(" ", "").endswith("unknown.moles"):
+            return True, "next"
+        return False, "next"
+    for nm, code in sorted(codes.items()):
+        for tot, tn in ((1, "total > 0"), (0, "total == 0")):
+            env = {"type": code, "total": tot, "unknown": True, "secondary": False}
+            inst = "%s, %s" % (nm, tn)
+            try:
+                got, _ = run(loop[5], env)
+            except Unknown as e:
+                R.anchor_missing(RULE, "quick_setup: master loop not evaluable for %s (%s)" % (inst, e))
+                continue
+            if got:
+                R.ok(RULE, inst, "unknown->moles is assigned")
+            else:
+                R.violation(RULE, inst, "for an %s master that is in the model (unknown present) with %s the master loop of quick_setup assigns nothing: the unknown keeps the sites it "
+                            "had at the end of the previous calculation (an exchanger / surface related to an absent phase starts with the sites of an earlier, even unsaved, run)"
+                            % (nm, tn), line=loop[1], **where)
 
 
 def sites_rule(P, R):
